@@ -1,7 +1,7 @@
 ------------------------------- MODULE MCEncW -------------------------------
 (* B1 generator for C06: files ENCRYPTED BY THE SPECIFICATION (EncWriter), one per chosen point of
    revision x layout x filter x EncryptMetadata x password pair x permissions.                              *)
-EXTENDS EncWriter, Json
+EXTENDS EncWriter, Json, IOUtils
 
 CONSTANTS Count, Stride
 
@@ -20,11 +20,19 @@ Opt(k) ==
   IN [rev |-> rv.rev, aes |-> rv.aes, layout |-> Layouts[((k \div 6) % 3) + 1], flate |-> (k \div 3) % 2 = 0,
       encMeta |-> rv.rev < 4 \/ (k \div 4) % 2 = 0, user |-> pr.u, owner |-> pr.o, p |-> Ps[((k \div 5) % 4) + 1]]
 Wrong(o) == <<35, 120>> \o o.user
+\* revision 6 files whose user password puts Algorithm 2.B exactly on its termination boundary for the validation salt
+\* of EncWriter (found by the driver with the primitives; $BOUNDARY: one JSON line {"pw": [bytes]} each)
+Boundary == IF "BOUNDARY" \in DOMAIN IOEnv THEN ndJsonDeserialize(IOEnv.BOUNDARY) ELSE <<>>
+BoundaryOpt(i) == [rev |-> 6, aes |-> TRUE, layout |-> IF i % 2 = 1 THEN "table" ELSE "objstm", flate |-> TRUE, encMeta |-> TRUE,
+                   user |-> Boundary[i].pw, owner |-> <<111, 119, 110, 101, 114>>, p |-> 0 - 3904]
 VARIABLE done
 Init == done = FALSE
 Next == /\ ~done
         /\ \A j \in 0..(Count - 1) :
              LET o == Opt(j * Stride) IN
+             PrintT(<<"REPLAY", ToJson([opt |-> o, bytes |-> BuildFile(o), user |-> o.user, owner |-> o.owner, wrong |-> Wrong(o), markers |-> Markers(o)])>>)
+        /\ \A i \in 1..Len(Boundary) :
+             LET o == BoundaryOpt(i) IN
              PrintT(<<"REPLAY", ToJson([opt |-> o, bytes |-> BuildFile(o), user |-> o.user, owner |-> o.owner, wrong |-> Wrong(o), markers |-> Markers(o)])>>)
         /\ done' = TRUE
 Spec == Init /\ [][Next]_done
